@@ -573,6 +573,7 @@ Proof.
   - (* churn *) destruct (nth_error (pool cs) k) as [b|] eqn:E; [|apply sim_quiet; exact I].
     apply sim_quiet. apply inv_heap_frame; [exact I|apply upd_len|].
     intros o c x Hc Hx. apply nth_upd_other. intros <-. exact (i_pool _ _ I o c _ Hc Hx (nth_error_In _ _ E)).
+  - (* edit *) dispatch_on cs st r I. apply sim_quiet. apply inv_overwrite; assumption.
 Qed.
 
 (** every history, every hand-out order of the pool: the objects behave as values *)
